@@ -345,19 +345,57 @@ func blockOnListChangeWorker(
 
 			defer simYield("block.woke")
 			simYield("block.before-wait")
-			select {
-			case reason := <-unblockCh:
+			// When several cases are ready Go picks one at random; a simulator
+			// decides instead which one is looked at first (-1: leave it to Go).
+			which := -1
+			var reason unblockReason
+			if first := simSelectFirst("block.select", 3); first >= 0 {
+				for i := 0; i < 3 && which < 0; i++ {
+					switch (first + i) % 3 {
+					case 0:
+						select {
+						case reason = <-unblockCh:
+							which = 0
+						default:
+						}
+					case 1:
+						select {
+						case <-waitTimer.C:
+							which = 1
+						default:
+						}
+					case 2:
+						select {
+						case <-ws.ready:
+							which = 2
+						default:
+						}
+					}
+				}
+			}
+			if which < 0 {
+				select {
+				case reason = <-unblockCh:
+					which = 0
+				case <-waitTimer.C:
+					which = 1
+				case <-ws.ready:
+					which = 2
+				}
+			}
+			switch which {
+			case 0:
 				// abort this command - connectivity lost, or explicitly unblocked via another client
 				ctx.l.Tracef("client connectivity event aborts wait for list %s", keyNameStr())
 				if reason.isError {
 					output.data = respErrorString(reason.reason)
 				}
 				return true
-			case <-waitTimer.C:
+			case 1:
 				// the block timed out, fail this command
 				ctx.l.Tracef("wait timer for %s has expired", keyNameStr())
 				return true
-			case <-ws.ready:
+			default:
 				// acquire completed
 				return false
 			}
